@@ -109,6 +109,14 @@ theorem kelly_nF2_is_sachs (t M4 A B lam2 mu a1M b1M b2M b3M : ℝ)
   generalize 1 - B / M4 * t = v
   ring
 
+/-- the magnetic moments implied by the literals of F1 (μ/4M² with 1/4M² the literal of τ) and of F2 (μ itself) agree
+    to better than 4·10⁻¹⁶ (proton) and 2·10⁻¹⁶ (neutron): F1 and F2 are the Sachs combinations of ONE pair (G_E, G_M) up to
+    that defect — below the resolution of a double, but not zero, so no exact joint statement exists -/
+theorem kelly_mu_consistent :
+    |(0.7931031653189349 : ℝ) / 0.28397655354667284 - 2.792847351| < 4e-16 ∧
+    |(0.5417644379086957 : ℝ) / 0.2831951622975774 - 1.9130427| < 2e-16 := by
+  constructor <;> rw [abs_lt] <;> constructor <;> norm_num
+
 /-- non-vacuity: the hypotheses of the proton theorems are satisfiable (by the implied
     coefficients a_k = literal_k · (4M²)^k with 4M² = 1/0.28397655354667284) -/
 example : ∃ M4 a1E b1E b2E b3E mu : ℝ,
